@@ -429,7 +429,7 @@ mutual
       | (.ok rv, s1) =>
         match evalE c s1 idx with
         | (.error e, s2) => (.error e, s2)
-        | (.ok iv, s2) => (readIndex s2.st rv iv, s2)
+        | (.ok iv, s2) => (readSel s2.st rv iv, s2)
 
   /-- Variable.Evaluate: variables themselves are never memoised -/
   def evalV (c : Cfg) (s : EState) : Var → R Val × EState
